@@ -50,3 +50,29 @@ Theorem C04_code_draw_keys_depend_on_the_seed_only : forall (E E' : sim_env) t,
   sim_draw_keys E t = sim_draw_keys E' t.
 Proof. exact bundled_keys_depend_on_seed_only. Qed.
 Print Assumptions C04_code_draw_keys_depend_on_the_seed_only.
+
+(* ---- about the regenerated lcm.random_choice (Gen/RandomChoiceGen.v) ---------------------------- *)
+From LCM Require Import Gen.RandomChoiceGen Proofs.C04_RandomChoiceGen.
+(* one draw per agent; agent i's label is drawn with the i-th child of the variable's key, from the   *)
+(* labels with the probabilities of the agent's OWN row, by the inverse-CDF rule above; it has          *)
+(* positive probability in that row                                                                     *)
+Theorem C04_code_each_agent_draws_from_its_own_row_with_its_own_key :
+  forall (L : Type) (d_label : L) (uniform : key -> Q) (k : key) (probs : list (list Q)) (labels : list L),
+  length (random_choice L d_label uniform k probs labels) = length probs /\
+  forall i, (i < length probs)%nat ->
+    nth i (random_choice L d_label uniform k probs labels) d_label
+    = nth (choice (nth i probs nil) (uniform (k ++ i :: nil)%list)) labels d_label.
+Proof.
+  intros. split; [apply random_choice_length|intros i H; now apply random_choice_row].
+Qed.
+Print Assumptions C04_code_each_agent_draws_from_its_own_row_with_its_own_key.
+
+Theorem C04_code_drawn_label_has_positive_probability :
+  forall (L : Type) (d_label : L) (uniform : key -> Q) i (k : key) (probs : list (list Q)) (labels : list L),
+  (i < length probs)%nat ->
+  Forall (fun x => 0 <= x) (nth i probs nil) -> 0 < total (nth i probs nil) ->
+  0 <= uniform (k ++ i :: nil)%list -> uniform (k ++ i :: nil)%list < 1 ->
+  exists j, nth i (random_choice L d_label uniform k probs labels) d_label = nth j labels d_label /\
+            (j < length (nth i probs nil))%nat /\ 0 < nth j (nth i probs nil) 0.
+Proof. exact random_choice_support. Qed.
+Print Assumptions C04_code_drawn_label_has_positive_probability.
